@@ -437,12 +437,18 @@ impl<S: PageSize> Iterator for PageRangeInclusive<S> {
 
             // If the end of the inclusive range is the maximum page possible for size S,
             // incrementing start until it is greater than the end will cause an integer overflow.
-            // So instead, in that case we decrement end rather than incrementing start.
+            // The same happens at the last page of the lower half, where incrementing start
+            // would leave the canonical address range.
+            // So instead, in these cases we decrement end rather than incrementing start.
             let max_page_addr = VirtAddr::new(u64::MAX) - (S::SIZE - 1);
-            if self.start.start_address() < max_page_addr {
-                self.start += 1;
-            } else {
+            let lower_half_max_page_addr = VirtAddr::new(0x7fff_ffff_ffff) - (S::SIZE - 1);
+            let start_addr = self.start.start_address();
+            if self.start == self.end
+                && (start_addr == max_page_addr || start_addr == lower_half_max_page_addr)
+            {
                 self.end -= 1;
+            } else {
+                self.start += 1;
             }
             Some(page)
         } else {
